@@ -162,6 +162,14 @@ func solveObligation(o *Obligation, reg *Registry, cfg *SolverCfg) {
 			open = append(open, i)
 		}
 	}
+	if cfg.CrossCheck && o.Expect != "sat" {
+		// thorough tier: every instance is also given to the other solver configurations; whatever they answer
+		// within the budget must agree with the first answer
+		open = open[:0]
+		for i := 0; i < n; i++ {
+			open = append(open, i)
+		}
+	}
 	if len(open) > 0 && o.Expect != "sat" {
 		runFile := filepath.Join(cfg.OutDir, sanitize(o.Name)+".open.smt2")
 		var sub []ObInstance
@@ -178,7 +186,11 @@ func solveObligation(o *Obligation, reg *Registry, cfg *SolverCfg) {
 			ch := make(chan res, len(solverCmds))
 			for _, cmd := range solverCmds[1:] {
 				go func(cmd []string) {
-					ans, raw, dur := runSolver(cmd, runFile, cfg.TimeoutS)
+					to := cfg.TimeoutS
+					if cfg.CrossCheck && to > 20 {
+						to = 20
+					}
+					ans, raw, dur := runSolver(cmd, runFile, to)
 					if strings.Contains(raw, "rror") && !strings.Contains(raw, "model is not available") {
 						ans = nil // a solver that rejects the query gives no answers
 					}
